@@ -273,7 +273,7 @@ def run_route(case, res):
     has_worker = bool(set(case["layers"]) & {"retry", "poll", "throttle", "timeout"})
     for victim in (("chain", "worker") if has_worker else ("chain",)):
         for second in ("completeB", "submitC", "runC"):
-            Sweep(RScenario(case, victim, second), res, "vt", case["name"], gran=case.get("gran", "line")).run(case["cap"], rng, per_site=1)
+            Sweep(RScenario(case, victim, second), res, "vt", case["name"], gran=case.get("gran")).run(case["cap"], rng, per_site=1)
             if harness.need_recycle():
                 return
 
